@@ -3,9 +3,9 @@ C12, literals — decoding what the drivers render gives back what the tracking 
 Statements with their (short) proofs.
 
 `deleted_properties_text_array_round_trip`: for ALL key strings, the text[] literal that quotes every key and escapes
-exactly `"` and `\` decodes to exactly those keys — the emitter of hooks/C12-fix4.patch.  The emitter as it is in /repo
-(`strconv.Quote`) round-trips exactly the keys made of printable runes (`go_quote_round_trip_plain`) and mangles every
-other one (`go_quote_loses_control_characters`: a key with a newline comes back with the letter `n`): a known finding.
+exactly `"` and `\` decodes to exactly those keys — the emitter as it is in /repo since commit 6e07961.  The emitter before that commit
+(`strconv.Quote`, kept as `emitGo`) round-trips exactly the keys made of printable runes (`go_quote_round_trip_plain`)
+and mangles every other one (`go_quote_loses_control_characters`: a key with a newline comes back with the letter `n`).
 The decoder model is tied to pgtype's parser, the real emitters are run on hostile keys (suite c12lit).
 -/
 import Dawgs.Model.C12Lit
@@ -125,7 +125,7 @@ theorem run_goQuoteKey_plain (isPrint : Nat → Bool) (acc : List (Option Str)) 
   rw [h0, run_append, run_goQuote_plain isPrint acc [] k hk]
   simp [run_cons, run_nil, step, cQuote, cBack]
 
-/-- The emitter as it is in /repo round-trips every key made of printable runes (incl. `"` and `\`). -/
+/-- The emitter before commit 6e07961 round-trips every key made of printable runes (incl. `"` and `\`). -/
 theorem go_quote_round_trip_plain (isPrint : Nat → Bool) (k : Str) (hk : ∀ c, c ∈ k → plainGo isPrint c = true) :
     decode (emitGo isPrint [k]) = some [some k] := by
   unfold decode emitGo
@@ -138,7 +138,7 @@ theorem go_quote_round_trip_plain (isPrint : Nat → Bool) (k : Str) (hk : ∀ c
 
 /-- … and NOT the others: `strconv.Quote` writes Go escape sequences, and to the array syntax a backslash only makes the
 next character literal. A deleted key `a<newline>b` is emitted as `"a\nb"` and read back as `anb`; a tab comes back as
-`t`, U+0001 as `x01`.  The full statement "for all keys" is false of the code as it is. -/
+`t`, U+0001 as `x01`.  The full statement "for all keys" was false of the code before commit 6e07961. -/
 theorem go_quote_loses_control_characters (isPrint : Nat → Bool) :
     decode (emitGo isPrint [[97, 10, 98]]) = some [some [97, 110, 98]] ∧
     decode (emitGo isPrint [[9]]) = some [some [116]] ∧
